@@ -43,6 +43,18 @@ func init() {
 	}
 }
 
+// out is where evidence and replay files go: the verif directory, unless VERIF_OUT redirects them
+// (used when the check is pointed at a deliberately broken tree, so that the committed evidence is not overwritten).
+func (e *checkEnv) out() string {
+	if d := os.Getenv("VERIF_OUT"); d != "" {
+		os.MkdirAll(filepath.Join(d, "evidence"), 0755)
+		os.MkdirAll(filepath.Join(d, "replays", "known"), 0755)
+		os.MkdirAll(filepath.Join(d, "replays", "tmp"), 0755)
+		return d
+	}
+	return e.verif
+}
+
 type line struct {
 	I            int64                  `json:"i"`
 	Seed         uint64                 `json:"seed"`
@@ -261,6 +273,9 @@ func cmdCheck(args []string) int {
 	}
 	if t := os.Getenv("VERIF_TIER"); t == "quick" || t == "thorough" {
 		e.tier = t
+	}
+	if r := os.Getenv("VERIF_REPO"); r != "" { // sensitivity runs against a patched scratch worktree
+		e.repo = r
 	}
 	e.seed = 20260925
 	if s := os.Getenv("VERIF_SEED"); s != "" {
@@ -512,7 +527,7 @@ func cmdCheck(args []string) int {
 		if r.OK || r.Class != f.Class || r.Trace != f.Trace {
 			fmt.Fprintf(os.Stderr, "kapsim: HARNESS FAILURE (non-reproducible, exit 2): seed=%d first run class=%q trace=%d, fresh-process replay ok=%v class=%q trace=%d\n",
 				f.Seed, f.Class, f.Trace, r.OK, r.Class, r.Trace)
-			keepCopy(f.Replay, filepath.Join(e.verif, "replays", "tmp"))
+			keepCopy(f.Replay, filepath.Join(e.out(), "replays", "tmp"))
 			return 2
 		}
 		reported[key] = true
@@ -548,9 +563,9 @@ func cmdCheck(args []string) int {
 				final = mlines[0].Out
 			}
 		}
-		dst := filepath.Join(e.verif, "replays", fmt.Sprintf("%s-%d.json", e.prop, f.Seed))
+		dst := filepath.Join(e.out(), "replays", fmt.Sprintf("%s-%d.json", e.prop, f.Seed))
 		if match != nil {
-			dst = filepath.Join(e.verif, "replays", "known", fmt.Sprintf("%s-%s.json", e.prop, slug(match.Class+"-"+fmt.Sprint(match.Shape))))
+			dst = filepath.Join(e.out(), "replays", "known", fmt.Sprintf("%s-%s.json", e.prop, slug(match.Class+"-"+fmt.Sprint(match.Shape))))
 		}
 		os.MkdirAll(filepath.Dir(dst), 0755)
 		if err := copyFile(final, dst); err != nil {
@@ -656,7 +671,7 @@ func cmdCheck(args []string) int {
 	}
 	ev["coverage"] = cov
 	evb, _ := json.MarshalIndent(ev, "", " ")
-	evPath := filepath.Join(e.verif, "evidence", e.prop+".json")
+	evPath := filepath.Join(e.out(), "evidence", e.prop+".json")
 	os.MkdirAll(filepath.Dir(evPath), 0755)
 	if err := os.WriteFile(evPath, evb, 0644); err != nil {
 		fmt.Fprintln(os.Stderr, "kapsim: cannot write evidence:", err)
